@@ -424,4 +424,10 @@ void free_compression(struct websocket *ws)
 	if (ws->extension_compression.compression_level == 0) return;
 	deflateEnd(*ws->extension_compression.strm_comp);
 	inflateEnd(&ws->extension_compression.strm_decomp);
+	/* fragments of a message that never got complete */
+	if (ws->extension_compression.strm_decomp.next_in != Z_NULL) {
+		free(ws->extension_compression.strm_decomp.next_in);
+		ws->extension_compression.strm_decomp.next_in = Z_NULL;
+		ws->extension_compression.strm_decomp.avail_in = 0;
+	}
 }
